@@ -544,6 +544,8 @@ def cli(argv=None, mode='output'):
             raise InternalBug("Unknown output format")
 
         extra_text = build_latex_cmdline_description(argv, args, t_args)
+        if args.output is None:
+            raise OSError("the standard output is closed")
         cnf.to_file(args.output,
                     fileformat=output_format,
                     export_header=args.verbose,
@@ -591,7 +593,8 @@ def main():
         sys.exit(-1)
 
     # avoid signaling BrokenPipeError as whatnot
-    sys.stderr.close()
+    if sys.stderr is not None:
+        sys.stderr.close()
 
 
 if __name__ == '__main__':
